@@ -84,6 +84,10 @@ type Map struct {
 	Vals  []Val
 	Epoch int
 	Doc   bool // part of a symbolic document: range order is solver-chosen
+	// members of a symbolic document object whose presence has not been asked for yet
+	Pend   []string
+	PDepth int
+	PID    int
 }
 
 // Iface is an interface value: nil (T==nil, L==nil), a concrete dynamic
